@@ -56,7 +56,7 @@ OPTION_SETS = [
     ['-ff', 'martini22', '-noscfix', '-merge', 'all'],
     ['-ff', 'martini3001', '-noscfix', '-ss', 'C'],
     ['-ff', 'martini3001', '-go'],
-    ['-ff', 'martini3001', '-go', '-go-eps', '12', '-elastic'],
+    ['-ff', 'martini3001', '-go', '-go-eps', '12', '-go-res-dist', '4', '-water-bias', '-water-bias-eps', 'H:3.6', 'C:2.1', '-ss', 'H'],
 ]
 PRESENTATIONS = [('permute', {'pstyle': 'random'}), ('permute', {'pstyle': 'reverse'}), ('rename-h', {'hstyle': 'pdb-rotation'}),
                  ('rename-h', {'hstyle': 'arbitrary'}), ('rigid', {}), ('hashseed', {})]
@@ -231,6 +231,8 @@ def cases(tier, seed):
     for g in range(groups):
         pdb = inputs[g % len(inputs)] if tier == 'quick' else rnd.choice(inputs)
         options = rnd.choice(OPTION_SETS)
+        if tier == 'quick' and g == groups - 1:
+            options = OPTION_SETS[-2 + seed % 2]      # every quick run has one Go-model group
         pres = rnd.sample(PRESENTATIONS, npres) if npres < len(PRESENTATIONS) else list(PRESENTATIONS)
         if not any(p[0] == 'hashseed' for p in pres):
             pres[-1] = ('hashseed', {})
@@ -282,6 +284,7 @@ def run_case(params):
                 b.violation('%s/%s' % (kind, p[0]), 'topology depends on the presentation (%s: %s)' % (kind, p[0]), dict(desc, detail=p[1]))
                 continue
             changed = record.get('order_changed') or record.get('names_changed') or record.get('moved') or kind == 'hashseed'
+            b.feat({'opt' + o: 1 for o in params['options'] if o.startswith('-') and not o[1:2].isdigit()})
             b.feat({'pairs_compared': 1, 'pres_' + kind: 1, 'admissible_threshold_differences': adm,
                     'presentation_really_changed': int(bool(changed))})
             if changed and n_inter_res:
